@@ -203,7 +203,7 @@ _NONNEG_CACHE = {}
 STATS = {"z3_queries": 0, "z3_seconds": 0.0, "side_conditions": []}
 
 
-def prove_nonneg(p, timeout_ms=20000):
+def prove_nonneg(p, timeout_ms=4000):
     """Prove re(p) >= 0 (and im(p) == 0) for all admissible atom values."""
     k = p.key()
     r = _NONNEG_CACHE.get(k)
